@@ -14,7 +14,7 @@ import time
 VERIF = os.path.dirname(os.path.dirname(os.path.abspath(__file__)))
 REPO = os.environ.get("VERIF_REPO", "/repo")
 COQ = os.path.join(VERIF, "coq")
-EVID = os.path.join(VERIF, "evidence")
+EVID = os.environ.get("VERIF_EVIDENCE_DIR") or os.path.join(VERIF, "evidence")
 RUN = os.path.join(VERIF, ".run")
 VENV_PY = "/venv/bin/python"
 KNOWN = os.path.join(VERIF, "known_findings.json")
@@ -190,7 +190,7 @@ def coq_props(prop_id, deps_targets=None, timeout=1800):
 
 def coq_eval(tag, body, timeout=900):
     """Compile a generated .v (cases file) and return coqc's stdout."""
-    d = os.path.join(RUN, "cases")
+    d = os.path.join(RUN, "cases", str(os.getpid()))
     os.makedirs(d, exist_ok=True)
     name = re.sub(r"\W", "_", tag)
     path = os.path.join(d, name + ".v")
@@ -212,6 +212,12 @@ def coq_eval(tag, body, timeout=900):
         pass
     if p.returncode != 0:
         raise RuntimeError("coqc failed on %s:\n%s" % (path, (p.stdout + p.stderr)[-3000:]))
+    if not os.environ.get("VERIF_KEEP_CASES"):
+        try:
+            os.remove(path)
+            os.rmdir(d)
+        except OSError:
+            pass
     return p.stdout
 
 
